@@ -348,10 +348,19 @@ theorem auxSess_feed (s : Sess) (np : Bytes) (d : Option Nat) (removed : Bool) :
 
 /-! ## `PipeStep` -/
 
+/-- the part of `core` the data view reads: everything but max-items, the parameter list, the indexing flag and the
+    default route -/
+def Sess.vcore (t : Sess) : Sess :=
+  { t.core with maxItems := 0, params := [], indexingPresent := false, route := [], hasRouteKeys := false,
+                routeKeys := [], routeFilts := none }
+
+theorem vcore_of_core {s t : Sess} (h : s.core = t.core) : s.vcore = t.vcore := by
+  unfold Sess.vcore; rw [h]
+
 /-- session `sid` keeps identity and parameters from `sv` to `sv'`, receives structured Messages `sent` whose text is
     what was appended to its data lines, and its client's view advances by exactly the events `evs` -/
 def PipeStep (sid : Nat) (sv sv' : Server) (evs : List Ev) : Prop :=
-  ∀ s, sv.sess? sid = some s → ∃ s' sent, sv'.sess? sid = some s' ∧ s'.core = s.core ∧
+  ∀ s, sv.sess? sid = some s → ∃ s' sent, sv'.sess? sid = some s' ∧ s'.vcore = s.vcore ∧
     dataLines s' = dataLines s ++ sent.map dataText ∧
     ∀ m, applyMsg (applyMsgs m sent) (pend s') = evs.foldl applyEv (applyMsg m (pend s))
 
@@ -379,7 +388,7 @@ theorem pipeStep_of_push {sid : Nat} {sv sv' : Server}
   intro s hs
   rcases h s hs with h | h
   · exact ⟨s, [], h, rfl, by simp, fun m => rfl⟩
-  · refine ⟨pushSess s, (match s.nextData with | some m => [m] | none => []), h, pushSess_core s, ?_, ?_⟩
+  · refine ⟨pushSess s, (match s.nextData with | some m => [m] | none => []), h, vcore_of_core (pushSess_core s), ?_, ?_⟩
     · rw [pushSess_dataLines]
       cases s.nextData <;> rfl
     · intro m
@@ -408,7 +417,7 @@ theorem pipeStep_feed_self (sv : Server) (sid : Nat) (ev : Ev) : PipeStep sid sv
   rw [he]
   obtain ⟨h1, h2, h3⟩ := auxSess_feed s np d removed
   refine ⟨auxSess s np d removed, (feed s.maxItems { cur := pend s, sent := [] } (evOf np d removed)).sent,
-    nodeChangedAux_sess hs np d removed, h3, h2, ?_⟩
+    nodeChangedAux_sess hs np d removed, vcore_of_core h3, h2, ?_⟩
   intro m
   rw [h1]
   have := view_feed s.maxItems { cur := pend s, sent := [] } m (evOf np d removed)
